@@ -119,6 +119,7 @@ func check(args []string) int {
 	progress := fs.Bool("progress", false, "progress output")
 	qlog := fs.Bool("querylog", false, "write SMT transcript to evidence/queries/<id>.<entry>.smt2")
 	nworkers := fs.Int("workers", 0, "workers per entry (0 = auto)")
+	fs.StringVar(&evidenceSuffix, "evidence-suffix", "", "suffix for the evidence file name (used by seeded-change runs)")
 	seed := fs.Int("seed", 0, "seed (recorded only; exploration is deterministic)")
 	fs.Parse(args)
 	if *id == "" {
@@ -689,6 +690,8 @@ func (r *replayer) validate(res *entryResult, tc TierCfg) {
 
 // ---------------------------------------------------------------- evidence
 
+var evidenceSuffix string
+
 func writeEvidence(verif, id, tier string, seed int, spec *Spec, results []*entryResult, loadT, wall time.Duration, violations int, inconcl []string, npkgs int) {
 	states, transitions, tv := 0, 0, 0
 	var samples []any
@@ -803,5 +806,5 @@ func writeEvidence(verif, id, tier string, seed int, spec *Spec, results []*entr
 	}
 	os.MkdirAll(filepath.Join(verif, "evidence"), 0o755)
 	b, _ := json.MarshalIndent(ev, "", " ")
-	os.WriteFile(filepath.Join(verif, "evidence", id+".json"), b, 0o644)
+	os.WriteFile(filepath.Join(verif, "evidence", id+evidenceSuffix+".json"), b, 0o644)
 }
